@@ -101,8 +101,10 @@ impl ClientHello {
 
 impl Default for ClientHello {
     fn default() -> Self {
-        const CAPABILITIES: &[Capability] =
-            &[Capability::Base(Base::V1_0), Capability::Base(Base::V1_1)];
+        // Only end-of-message framing is implemented by the transports, so `:base:1.1` (which
+        // obliges both peers to switch to chunked framing, RFC 6242 section 4.1) must not be
+        // advertised.
+        const CAPABILITIES: &[Capability] = &[Capability::Base(Base::V1_0)];
         Self::new(CAPABILITIES)
     }
 }
